@@ -81,4 +81,246 @@ deriving DecidableEq
 def snapFixed {U : Type} (c : SamplerCfg U) : SnapF U :=
   ⟨c.ufull, c.inHer, c.outHer, c.nModes, c.input, c.backend, c.source⟩
 
+/-! ### additions: the staleness test, computations that raise, the QuickSampler, shared components
+
+`SamplerCfg` / `snapFixed` above, compared field by field with the CURRENT
+`Sampler._gen_calculation_values` (lightworks/emulator/simulation/sampler.py):
+
+    self.__circuit.U_full        ↦ ufull          (arrays: equal shape and `(a == b).all()`)
+    self.__circuit.heralds       ↦ inHer, outHer  (a dict of two dicts, compared with `!=`)
+    self.__circuit.n_modes       ↦ nModes
+    self.input_state             ↦ input          (`State.__eq__`: the mode occupation lists)
+    self.backend.backend         ↦ backend        (the NAME held by the Backend object now)
+    source.brightness, .purity, .indistinguishability, .probability_threshold ↦ source (4 entries)
+
+Nothing is missing; the detector is not part of the code's snapshot (it acts at sampling time, after
+the cached distribution) and hence not part of `SamplerCfg`. -/
+
+namespace Cached
+
+variable {Cfg Snap Val : Type} [DecidableEq Snap]
+
+/-- `_check_parameter_updates`: nothing stored yet, or the stored snapshot differs from the
+snapshot of the current configuration -/
+def stale (snap : Cfg → Snap) (s : Cached Cfg Snap Val) : Bool :=
+  match s.cache with
+  | some (k, _) => !(decide (k = snap s.cfg))
+  | none => true
+
+/-- a read whose computation may raise (`probability_distribution` raises e.g. on a mode mismatch
+or when post-selection removes every output): the exception leaves the stored pair as it was,
+because `__calculation_values` is assigned only after the distribution has been computed -/
+def readE {E : Type} (snap : Cfg → Snap) (compute : Cfg → Except E Val)
+    (s : Cached Cfg Snap Val) : Except E Val × Cached Cfg Snap Val :=
+  if s.stale snap then
+    match compute s.cfg with
+    | .ok v' => (.ok v', { s with cache := some (snap s.cfg, v') })
+    | .error e => (.error e, s)
+  else
+    match s.cache with
+    | some (_, v) => (.ok v, s)
+    | none => (compute s.cfg, s)   -- unreachable: `stale` is true without a stored pair
+
+/-- a step of a history with raising computations; a read also reports whether it had to
+recompute (`stale` just before the read) -/
+def stepE {E : Type} (snap : Cfg → Snap) (compute : Cfg → Except E Val)
+    (s : Cached Cfg Snap Val) : Op Cfg → Option (Bool × Except E Val) × Cached Cfg Snap Val
+  | .reconfig f => (none, { s with cfg := f s.cfg })
+  | .read => let r := s.readE snap compute; (some (s.stale snap, r.1), r.2)
+
+/-- run a history with raising computations: for every read the configuration current at that
+read, whether the read recomputed, and the value or exception it returned -/
+def runE {E : Type} (snap : Cfg → Snap) (compute : Cfg → Except E Val) :
+    Cached Cfg Snap Val → List (Op Cfg) → List (Cfg × Bool × Except E Val)
+  | _, [] => []
+  | s, op :: ops =>
+    match stepE snap compute s op with
+    | (some (b, v), s') => (s'.cfg, b, v) :: runE snap compute s' ops
+    | (none, s') => runE snap compute s' ops
+
+end Cached
+
+/-! ### the configuration of a QuickSampler and its snapshots -/
+
+/-- a post-selection rule as `Rule.as_tuple()` gives it: (modes, allowed photon numbers) -/
+abbrev PSRule := List Nat × List Nat
+
+/-- what determines a QuickSampler's distribution.  The post-selection is an OBJECT (`psId`, its
+identity: `PostSelection` defines no `__eq__`, so `!=` on two of them is an identity test)
+together with the rules that object holds NOW (`psRules`); the object can be given further rules
+in place after it was assigned. -/
+structure QuickCfg (U : Type) where
+  ufull : U
+  nModes : Nat
+  inHer : List (Nat × Nat)
+  outHer : List (Nat × Nat)
+  input : List Nat
+  psId : Nat
+  psRules : List PSRule
+  photonCounting : Bool
+deriving DecidableEq
+
+/-- `QuickSampler._gen_calculation_values` before the repair ab07a40 (finding F30): the object is
+stored, the rules it holds are not -/
+structure SnapQP (U : Type) where
+  ufull : U
+  inHer : List (Nat × Nat)
+  outHer : List (Nat × Nat)
+  nModes : Nat
+  input : List Nat
+  psId : Nat
+  photonCounting : Bool
+deriving DecidableEq
+
+def snapQuickPinned {U : Type} (c : QuickCfg U) : SnapQP U :=
+  ⟨c.ufull, c.inHer, c.outHer, c.nModes, c.input, c.psId, c.photonCounting⟩
+
+/-- `QuickSampler._gen_calculation_values` as it is now, field by field:
+`[U_full, heralds, n_modes, input_state, post_select, ps_rules, photon_counting]` -/
+structure SnapQ (U : Type) where
+  ufull : U
+  inHer : List (Nat × Nat)
+  outHer : List (Nat × Nat)
+  nModes : Nat
+  input : List Nat
+  psId : Nat
+  psRules : List PSRule
+  photonCounting : Bool
+deriving DecidableEq
+
+def snapQuickFixed {U : Type} (c : QuickCfg U) : SnapQ U :=
+  ⟨c.ufull, c.inHer, c.outHer, c.nModes, c.input, c.psId, c.psRules, c.photonCounting⟩
+
+/-! ### components shared by several long-lived objects
+
+A holder keeps its OWN settings (`Own`: what it was assigned, components by identity); the values
+the components hold now live in a heap `H` that every holder sees; `resolve` reads a holder's
+settings through the heap and gives the configuration (`Cfg`) its distribution depends on.  An
+in-place change of a component is a change of the heap: it is seen by every holder at once, and by
+no cache. -/
+
+structure CWorld (H Own Snap Val : Type) where
+  heap : H
+  holders : List (Cached Own Snap Val)
+
+inductive WOp (H Own : Type)
+  | new (o : Own)                       -- a further holder is created (index = number so far)
+  | reconfig (i : Nat) (f : Own → Own)  -- holder `i` is assigned new settings
+  | mutate (g : H → H)                  -- a shared component is changed in place
+  | read (i : Nat)                      -- holder `i` is read
+
+namespace CWorld
+
+variable {H Own Cfg Snap Val E : Type} [DecidableEq Snap]
+
+/-- one step; reads go through `Cached.readE` (the computation may raise), with the snapshot and
+the computation taken through the heap of that moment -/
+def step (resolve : H → Own → Cfg) (snap : Cfg → Snap) (compute : Cfg → Except E Val)
+    (w : CWorld H Own Snap Val) :
+    WOp H Own → Option (Nat × Cfg × Except E Val) × CWorld H Own Snap Val
+  | .new o => (none, { w with holders := w.holders ++ [{ cfg := o }] })
+  | .reconfig i f =>
+    match w.holders[i]? with
+    | none => (none, w)
+    | some s => (none, { w with holders := w.holders.set i { s with cfg := f s.cfg } })
+  | .mutate g => (none, { w with heap := g w.heap })
+  | .read i =>
+    match w.holders[i]? with
+    | none => (none, w)
+    | some s =>
+      let r := s.readE (fun o => snap (resolve w.heap o)) (fun o => compute (resolve w.heap o))
+      (some (i, resolve w.heap s.cfg, r.1), { w with holders := w.holders.set i r.2 })
+
+/-- run an interleaved history over all holders: for every read the holder, the configuration it
+had at that read (its settings seen through the heap of that moment) and the value or exception
+returned -/
+def run (resolve : H → Own → Cfg) (snap : Cfg → Snap) (compute : Cfg → Except E Val) :
+    CWorld H Own Snap Val → List (WOp H Own) → List (Nat × Cfg × Except E Val)
+  | _, [] => []
+  | w, op :: ops =>
+    match step resolve snap compute w op with
+    | (some r, w') => r :: run resolve snap compute w' ops
+    | (none, w') => run resolve snap compute w' ops
+
+/-- would a read of holder `i` recompute now (`_check_parameter_updates` of that holder)? -/
+def staleAt (resolve : H → Own → Cfg) (snap : Cfg → Snap) (w : CWorld H Own Snap Val) (i : Nat) :
+    Option Bool :=
+  (w.holders[i]?).map (fun s => s.stale (fun o => snap (resolve w.heap o)))
+
+/-- the same history WITHOUT any cache: every read builds a fresh object from the holder's
+settings and the heap of that moment and computes -/
+def specStep (resolve : H → Own → Cfg) (compute : Cfg → Except E Val) (w : H × List Own) :
+    WOp H Own → Option (Nat × Cfg × Except E Val) × (H × List Own)
+  | .new o => (none, (w.1, w.2 ++ [o]))
+  | .reconfig i f =>
+    match w.2[i]? with
+    | none => (none, w)
+    | some o => (none, (w.1, w.2.set i (f o)))
+  | .mutate g => (none, (g w.1, w.2))
+  | .read i =>
+    match w.2[i]? with
+    | none => (none, w)
+    | some o => (some (i, resolve w.1 o, compute (resolve w.1 o)), w)
+
+def specRun (resolve : H → Own → Cfg) (compute : Cfg → Except E Val) :
+    H × List Own → List (WOp H Own) → List (Nat × Cfg × Except E Val)
+  | _, [] => []
+  | w, op :: ops =>
+    match specStep resolve compute w op with
+    | (some r, w') => r :: specRun resolve compute w' ops
+    | (none, w') => specRun resolve compute w' ops
+
+end CWorld
+
+/-! #### the heap of PostSelection objects -/
+
+/-- the rules every PostSelection object holds now, by object identity -/
+abbrev PSHeap := Nat → List PSRule
+
+/-- `mutate psId newRules`: the object `psId` holds `newRules` from now on (rules added in place);
+every holder of that object sees it -/
+def PSHeap.mutate (psId : Nat) (newRules : List PSRule) (h : PSHeap) : PSHeap :=
+  fun p => if p = psId then newRules else h p
+
+/-- a QuickSampler's own settings: the post-selection by identity only -/
+structure QuickOwn (U : Type) where
+  ufull : U
+  nModes : Nat
+  inHer : List (Nat × Nat)
+  outHer : List (Nat × Nat)
+  input : List Nat
+  psId : Nat
+  photonCounting : Bool
+deriving DecidableEq
+
+def QuickOwn.resolve {U : Type} (h : PSHeap) (o : QuickOwn U) : QuickCfg U :=
+  ⟨o.ufull, o.nModes, o.inHer, o.outHer, o.input, o.psId, h o.psId, o.photonCounting⟩
+
+/-- the history step "a rule is added in place to the PostSelection object `psId`" -/
+def WOp.mutatePS {Own : Type} (psId : Nat) (newRules : List PSRule) : WOp PSHeap Own :=
+  .mutate (PSHeap.mutate psId newRules)
+
+/-! #### the heap of Backend and Source objects (Sampler) -/
+
+/-- the backend name every Backend object holds now and the four parameters every Source object
+holds now, by object identity (`sampler.backend.backend = …`, `sampler.source.purity = …` change a
+component in place for every Sampler that was given it) -/
+structure SHeap where
+  backend : Nat → Nat
+  source : Nat → List Nat
+
+/-- a Sampler's own settings: Backend and Source by identity only -/
+structure SamplerOwn (U : Type) where
+  ufull : U
+  nModes : Nat
+  inHer : List (Nat × Nat)
+  outHer : List (Nat × Nat)
+  input : List Nat
+  backendObj : Nat
+  sourceObj : Nat
+deriving DecidableEq
+
+def SamplerOwn.resolve {U : Type} (h : SHeap) (o : SamplerOwn U) : SamplerCfg U :=
+  ⟨o.ufull, o.nModes, o.inHer, o.outHer, o.input, h.backend o.backendObj, h.source o.sourceObj⟩
+
 end LW
